@@ -8,6 +8,10 @@ export CGO_ENABLED=1
 PROP="$1"; TIER="${2:-quick}"; shift; shift || true
 mkdir -p /verif/.bin /verif/.cache /verif/evidence /verif/replays
 cd /verif/harness || exit 2
+if ! go run ./genfuncs /repo > zz_funcs_gen.go.tmp 2> /verif/.bin/build.log; then
+  echo "BUILD-FAILED (function table generator):"; cat /verif/.bin/build.log; rm -f zz_funcs_gen.go.tmp; exit 2
+fi
+mv zz_funcs_gen.go.tmp zz_funcs_gen.go
 if ! go build -tags verif -o /verif/.bin/check . 2> /verif/.bin/build.log; then
   echo "BUILD-FAILED (infrastructure, not a verdict):"; cat /verif/.bin/build.log; exit 2
 fi
